@@ -134,6 +134,7 @@ def parseScenario (j : Json) : Option Parsed := do
       | ["status", c] => some (BOp.status c.toNat!)
       | ["write", h] => (fromHex h).map BOp.write
       | ["flush"] => some BOp.flush
+      | ["close"] => some BOp.close
       | _ => none
     | _ => none
   let jsonEnd := tableOf j "jsonEnd"
